@@ -21,7 +21,7 @@ var (
 	literals    = []string{"a", "b", "pets", "items", "v1", "x.y", "Orders"}
 	holders     = []string{"{id}", "{name}", "{k}"}
 	schemeNames = []string{"k1", "k2", "oauth", "Key"}
-	basePaths   = []string{"", "/", "/api", "/api/v1", "/api/", "/a"}
+	basePaths   = []string{"", "/", "/api", "/api/v1", "/api/", "/a", "/api//v1", "/api/./v1/"}
 )
 
 func genTypes(t *rapid.T, label string, pool []string, min, max int) []string {
@@ -323,6 +323,7 @@ func applyEdit(t *rapid.T, c *Case, harmlessOnly bool) {
 func jsonChoice(t *rapid.T, c *Case, pool []string, pKeep, pFix int) {
 	c.JSONDefaults = rapid.IntRange(0, 99).Draw(t, "jsondefaults") < pKeep
 	c.LateGlobals = rapid.IntRange(0, 3).Draw(t, "globals-set-after-loading") == 0
+	c.EarlyContext = rapid.IntRange(0, 3).Draw(t, "context-created-before-media-types-and-authenticators") == 0
 	if c.JSONDefaults {
 		if rapid.IntRange(0, 99).Draw(t, "jsonfix") < pFix {
 			// a description that names the JSON type in both directions, so that the defaults are required
@@ -395,6 +396,12 @@ func Classify(c Case) (bool, []string) {
 	}
 	if c.LateGlobals && (len(c.Consumes) > 0 || len(c.Produces) > 0) {
 		labels["top-level consumes/produces set on the loaded document"] = true
+	}
+	if c.EarlyContext {
+		labels["Context created after the handlers and before the media types and authenticators were registered"] = true
+	}
+	if strings.Contains(c.BasePath, "//") || strings.Contains(c.BasePath, "/./") {
+		labels["base path spelled with duplicate slashes or a '.' segment"] = true
 	}
 	for _, op := range c.Ops {
 		if op.Method == "options" && op.Body {
